@@ -67,7 +67,38 @@ def load_known():
     return json.load(open(p))
 
 
-def analyse(prop, tier, repo=REPO):
+def run_go_many(props, tier, repo=REPO):
+    """one load of the program, several properties: {prop: result}"""
+    out = tempfile.NamedTemporaryFile(prefix="cl_many_", suffix=".json", delete=False)
+    out.close()
+    cmd = [BIN, "-repo", repo, "-prop", ",".join(props), "-tier", tier, "-out", out.name]
+    r = subprocess.run(cmd, env=goenv(), stdout=subprocess.PIPE, stderr=subprocess.PIPE, text=True)
+    try:
+        data = json.load(open(out.name))
+    except Exception as e:
+        data = {}
+    os.unlink(out.name)
+    res = {}
+    for p_ in props:
+        d = data.get(p_)
+        if d is None:
+            d = {"property": p_, "obligations": [
+                {"rule": p_ + ".engine", "key": "go-engine", "status": "undecided", "where": "?",
+                 "detail": "Go engine produced no result: %s" % r.stderr[-1000:]}], "floors": {}, "stats": {}}
+        if d.get("obligations") is None:
+            d["obligations"] = []
+        res[p_] = d
+    return res
+
+
+def analyse_many(props, repo=REPO):
+    """quick-tier analysis of several properties sharing one program load / one C AST: {prop: obligations}"""
+    import rules_index
+    pre = run_go_many([p_ for p_ in props if p_ in rules_index.GO_RULES], "quick", repo)
+    return {p_: analyse(p_, "quick", repo, pre_go=pre.get(p_))[0] for p_ in props}
+
+
+def analyse(prop, tier, repo=REPO, pre_go=None):
     """returns (obligations, floors, stats, notes)"""
     obls, floors, stats, notes = [], {}, {}, []
     import rules_index
@@ -78,7 +109,7 @@ def analyse(prop, tier, repo=REPO):
         if tier == "thorough":
             cfgs += rules_index.EXTRA_CONFIGS.get(prop, [])
         for cfg in cfgs:
-            d = run_go(prop, tier, repo, cfg)
+            d = pre_go if (pre_go is not None and cfg == "default") else run_go(prop, tier, repo, cfg)
             for o in d["obligations"]:
                 if cfg != "default":
                     o["key"] = o["key"] + "@" + cfg
